@@ -124,6 +124,10 @@ func (y *c05Sys) Letters(s *c05State) []engine.Letter {
 	if s.proposer == "proposer" {
 		ls = append(ls, engine.Letter{Name: "UpdateProposer(proposer2,by=proposer)", Data: c05Role{"proposer", "proposer2"}})
 	}
+	// another rewrite of the bridge's configuration that is not about its period (once)
+	if cfg, err := s.w.HK.GetBridgeConfig(s.ctx, 1); err == nil && !cfg.OracleEnabled {
+		ls = append(ls, engine.Letter{Name: "UpdateOracleConfig(on,by=gov)", Data: c05Role{"oracle", ""}})
+	}
 	now := s.ctx.BlockTime()
 	seen := map[int64]bool{}
 	var ts []time.Time
@@ -267,7 +271,9 @@ func (y *c05Sys) apply(s, c *c05State, l engine.Letter, fpar []bool) (string, *e
 		panic("bad b2 op")
 	case c05Role:
 		var res world.DeliverResult
-		if d.role == "challenger" {
+		if d.role == "oracle" {
+			res = s.w.Deliver(ctx, ophosttypes.NewMsgUpdateOracleConfig(s.w.Authority, 1, true))
+		} else if d.role == "challenger" {
 			res = s.w.Deliver(ctx, ophosttypes.NewMsgUpdateChallenger(s.w.Authority, 1, world.Addr(d.to).String()))
 			if res.OK() {
 				c.challenger = d.to
